@@ -167,6 +167,12 @@ func (ip *Inode) FreeInode(atxn *alloctxn.AllocTxn) {
 func (ip *Inode) Resize(atxn *alloctxn.AllocTxn, sz uint64) bool {
 	var newSz = sz
 	var doshrink = false
+	if sz < ip.Size && sz%disk.BlockSize != 0 {
+		// the block that holds the new end stays: clear what lies beyond
+		// the new size so that a later grow reads zeros
+		n := disk.BlockSize - sz%disk.BlockSize
+		ip.Write(atxn, sz, n, make([]byte, n))
+	}
 	oldsz := util.RoundUp(ip.Size, disk.BlockSize)
 	util.DPrintf(5, "Resize %v to sz %d\n", oldsz, newSz)
 	ip.Size = newSz
